@@ -439,6 +439,17 @@ Theorem C20_planning_threads_visit_every_bot_once : forall n threads, 0 < thread
 Proof. exact planning_threads_partition. Qed.
 Print Assumptions C20_planning_threads_visit_every_bot_once.
 
+(** the trial period of the simulated population: while modelDay does not debit (i <= TrialDays) every stored
+    balance stays zero over any number of days of the whole population - so nobody can be grounded
+    ([C20_trial_checkin_never_refused]) and the daily update credits nobody ([C20_trial_update_credits_nobody]) *)
+Theorem C20_simulated_population_trial_period : forall (N : NumOps) (dist : Z -> Z -> K N),
+  kltb N (k0 N) (k0 N) = false ->
+  forall (days : list (pop_day N)) d (s : sim N),
+  Forall (fun pd => pd_debit pd = false) days -> TZb (e_table (s_eng s)) ->
+  TZb (e_table (fold_left (sop_apply (N:=N)) (sim_run dist d s days) (s_eng s))).
+Proof. exact @sim_trial_balances_zero. Qed.
+Print Assumptions C20_simulated_population_trial_period.
+
 (** non-vacuity: three bots on one engine with the model's LINEAR predictor, exact arithmetic, twelve days.  Two
     of them plan on the first day (in the order bot 2, bot 0), the third on the fifth day; a later trip is planned
     while the first is still to be kept.  The check passes, the run contains eight check-ins (all accepted, by the
